@@ -785,6 +785,9 @@ func C09(c *Ctx) {
 	c.R.Rule("C09-R4", "E5", "a bindings map never contains itself", 2)
 	c.R.Rule("C09-R6", "E6", "state readers decode numbers the way the matcher knows them (float64)", 1)
 	c09Readers(c)
+	c.shareRule("C15", "C15-R14", "C09-R14", "what can be reloaded is what was reached: no state is withheld from the report for its size or any other reason")
+	c.R.Rule("C09-R13", "E5", "a message a host coupling builds is plain JSON data", 3)
+	c09HostMadeMessages(c, "C09-R13")
 	c.R.Rule("C09-R11", "E1", "the crew keeps nothing about a machine outside its reported state", 1)
 	c09CrewKeepsOnlyReportedState(c, "C09-R11")
 	c.shareRule("C15", "C15-R2", "C09-R12", "what a host has written out is every change: the report carries every field and a deletion clears the duplicate-suppression record (a machine re-created the same way is reported again)")
